@@ -45,6 +45,9 @@ const POOL: &[PoolVal] = &[
     PoolVal { src: "\"\"", big: false },
     PoolVal { src: "\"ab\"", big: false },
     PoolVal { src: "\"\\u{e9}x\"", big: false },
+    PoolVal { src: "\"a\"", big: false },
+    PoolVal { src: "\"\\u{d7ff}\"", big: false },
+    PoolVal { src: "\"\\u{e000}\"", big: false },
     PoolVal { src: "[]", big: false },
     PoolVal { src: "[1, 2]", big: false },
     PoolVal { src: "[[1], \"a\"]", big: false },
@@ -61,7 +64,7 @@ const POOL: &[PoolVal] = &[
     PoolVal { src: "+", big: false },
     PoolVal { src: "len", big: false },
 ];
-const QUICK_POOL: &[usize] = &[0, 1, 2, 3, 5, 7, 8, 9, 12, 13, 15, 16, 18, 19, 21, 23, 24, 25, 26, 28];
+const QUICK_POOL: &[usize] = &[0, 1, 2, 3, 5, 7, 8, 9, 12, 13, 15, 16, 17, 18, 19, 21, 22, 24, 26, 27, 28, 29, 31];
 
 #[derive(Clone)]
 struct Case {
